@@ -218,6 +218,10 @@ func (p *inputPool) history(r *prng.R) []harness.Op {
 				var f *harness.Fault
 				if r.Chance(1, 4) {
 					f = &harness.Fault{ActionCall: 1 + r.Intn(4), Kind: []string{"error", "panic"}[r.Intn(2)]}
+				} else if r.Chance(1, 2) {
+					// actions that modify the tokens they are given (e.g. unquote in place)
+					f = &harness.Fault{MutateToks: true}
+					ops = append(ops, harness.Op{Op: "parselex", Fault: f})
 				}
 				ops = append(ops, harness.Op{Op: "parselex", Fault: f})
 			}
@@ -382,6 +386,8 @@ func opsSummary(ops []harness.Op) string {
 				s += fmt.Sprintf("+scanpanic@%d", o.Fault.ScanPanic)
 			case o.Fault.ActionCall > 0:
 				s += fmt.Sprintf("+%s@%d", o.Fault.Kind, o.Fault.ActionCall)
+			case o.Fault.MutateToks:
+				s += "+mutating-actions"
 			}
 		}
 		if o.Op == "lexscan" {
